@@ -329,6 +329,12 @@ inductive Ev where
   | shot                    -- multishot: one more accepted descriptor (`push_multishot`)
   | popShot                 -- `poll_next` hands one queued descriptor to the caller
   | dropFut                 -- the future / stream is dropped (`Proactor::cancel`)
+  /-- io_uring driver, opcode not supported by the kernel: `push_blocking` runs `call_blocking()` (which
+  stores the new descriptor in the op) and `Entry::notify` then runs the io_uring `set_result`, which wraps
+  the same number a second time and overwrites the field: the first owner is dropped (closes the number)
+  while the op keeps the second (`CreateSocket`, `Accept`; `OpenFile::call` returns `Ok(0)`, so there the
+  second owner is descriptor 0). -/
+  | completeFallback
   deriving DecidableEq, Repr
 
 /-- the op struct is dropped: everything it still owns is closed -/
@@ -359,6 +365,12 @@ def step (s : St) : Ev → Option St
       let s1 := if ok then adopt s else s
       let s2 := { s1 with inDriver := false, result := some ok }
       -- nobody else holds the key: the op is dropped with the driver's reference
+      some (if s.fut = .dropped then dropOp s2 else s2)
+    else none
+  | .completeFallback =>
+    if s.inDriver = true ∧ s.result = none then
+      let s1 := adopt s
+      let s2 := { s1 with closed := s1.closed ++ [s.next], inDriver := false, result := some true }
       some (if s.fut = .dropped then dropOp s2 else s2)
     else none
   | .shot =>
